@@ -1,6 +1,6 @@
 CONSTANTS
   Depths = {1, 2, 3, 4}
-  Msgs = {"a", "b"}
+  Msgs = {"a"}
 INIT Init
 NEXT MCNext
 INVARIANTS TypeOK ForwardSecure CanSign FutureDerivable LiveShape PeriodRange VerifyExactlyOwnPeriod ExhaustedIffLast
